@@ -62,7 +62,7 @@ def correspondence(ctx):
             if k % 40 == 0:
                 m = bench.mapping(2 * L + 2, rng)
             objs = B.real_cons(bench, cons, m)
-            inv_of = {id(v): r for r, (_, v) in enumerate(m)}
+            inv_of = B.Inv(m)
             try:
                 out = VersionConstraint.simplify(list(objs))
                 impl_c = B.canon_cons(out, inv_of)
@@ -119,7 +119,7 @@ def _judge(ctx, stream, bench, suspects):
         if failed is None:
             # fixed point on the real code
             objs = B.real_cons(bench, impl_c, m)
-            inv_of = {id(v): r for r, (_, v) in enumerate(m)}
+            inv_of = B.Inv(m)
             try:
                 again = B.canon_cons(VersionConstraint.simplify(list(objs)), inv_of)
                 if again != impl_c:
